@@ -36,12 +36,218 @@ def same_value(impl, model):
     return impl == impl and abs(impl) != INF and Fr(impl) == model
 
 
+class StepSpec:
+    """The definition itself in exact rationals (finite observations): cdf(y) = (sum of w_i over y_i <= y) / (sum of w_i), pmf(y) the
+    same with y_i = y, ppf(q) = inf{y in [a, b] : q <= cdf(y)}.  Used where the sample is too large for the Lean driver (its model
+    is quadratic in the sample size); on the smaller large-workload cases both are evaluated and must agree exactly."""
+
+    def __init__(self, ys, ws, a, b):
+        import bisect
+        self._bisect = bisect
+        w = [Fr(1)] * len(ys) if ws is None else [Fr(float(x)) for x in ws]
+        tot = sum(w, Fr(0))
+        acc = {}
+        for y, x in zip(ys, w):
+            acc[y] = acc.get(y, Fr(0)) + x
+        self.a, self.b = a, b
+        self.pts = sorted(acc)
+        self.mass = [acc[y] / tot for y in self.pts]
+        self.cum, c = [], Fr(0)
+        for m in self.mass:
+            c += m
+            self.cum.append(c)
+
+    def cdf(self, y):
+        k = self._bisect.bisect_right(self.pts, y)
+        return self.cum[k - 1] if k else Fr(0)
+
+    def pmf(self, y):
+        k = self._bisect.bisect_left(self.pts, y)
+        return self.mass[k] if k < len(self.pts) and self.pts[k] == y else Fr(0)
+
+    def ppf(self, q):
+        """(value, distance from q to the nearest cumulative level) for a rational q in [0, 1]"""
+        k = self._bisect.bisect_left(self.cum, q)
+        margin = min([abs(q)] + [abs(q - self.cum[j]) for j in (k - 1, k) if 0 <= j < len(self.cum)])
+        if q <= self.cdf(self.a):
+            return self.a, margin
+        return self.pts[k], margin
+
+    def least_full_point(self):
+        return max(self.a, next(y for y, c in zip(self.pts, self.cum) if c == 1))
+
+
+def as_container(ys, label):
+    """the same numbers in the container named by `label` (see common.number_containers); None = a list of Python floats"""
+    if label is None:
+        return ys
+    if label == "pyint_list":
+        return [int(v) for v in ys]
+    if label == "float32":
+        return np.array(ys, dtype=np.float32)
+    return np.array([int(v) for v in ys], dtype=label)
+
+
 def gen_case(rng, max_n):
     n = rng.choice([1, 1, 2, 2, 3, 4, 5, 7, 10, 16, 25, max_n])
     ys = G.gen_values(rng, n)
     ws = G.gen_weights(rng, n)
     a, b = G.gen_bounds(rng, ys)
     return ys, ws, a, b
+
+
+LARGE_SHAPES = [(3000, 1000), (150, 9000), (40, 40000), (1500, 2000), (600, 6000), (1000, 1100), (3000, 300), (400, 400), (20, 100000)]
+
+
+def large_workload(ED, rep, drv, seed, tier):
+    """How much is asked at once is an input axis of its own: whatever code path `query size x support size` selects, the answer at
+    each entry is the same step function.  Samples of 20 .. 3000 points x query arrays of 300 .. 100000 entries (1-D and 2-D), built
+    by a recipe that is *executed* here and quoted in the replay.  Judged: every entry with level 0 is `a`, every entry with level 1 is
+    a point of cdf 1 (to 1e-12) not above the least such point, every quantile lies in [a, b]; ~50 entries of each query (always one 0
+    and one 1; exact cdf levels, their float neighbours, random levels/points) against the exact step distribution (`StepSpec`,
+    cross-checked against the Lean model where the sample is small enough for it), and the same entries asked again as scalars."""
+    rng = C.rng_for("C03/large-workload", seed)
+    k = 5 if tier == "quick" else 40
+    shapes = LARGE_SHAPES[:3] + [rng.choice(LARGE_SHAPES) for _ in range(k - 3)]
+    for si, (n, m) in enumerate(shapes):
+        gs = rng.randrange(2 ** 31)
+        ys_expr = rng.choice([f"g.uniform(-5., 5., {n})", f"g.permutation({n}) * 0.25 - 3.", f"g.integers(0, {max(2, n // 2)}, {n}) * 0.5",
+                              f"np.round(g.normal(0., 1e3, {n}), 1)"])
+        ws_expr = rng.choice(["None", "None", f"g.integers(1, 10, {n}).astype(float)", f"g.integers(0, 3, {n}) + (np.arange({n}) == 0)",
+                              f"1. + 3e-6 * g.uniform(-1., 1., {n})"])
+        a_expr = rng.choice(["-np.inf", "ys.min()", "ys.min() - 1.", "ys.min() - 1.", "np.nextafter(ys.min(), -np.inf)"])
+        if si < 3:      # the three fixed shapes are stratified over the position of the lower bound
+            a_expr = ["ys.min() - 1.", "ys.min()", "-np.inf"][si]
+        b_expr = rng.choice(["np.inf", "ys.max()", "ys.max() + 2.5"])
+        shape = rng.choice([(m,), (m,), (m // 50, 50), (4, m // 100, 25)])
+        nl = min(n, m // 8)
+        recipe = "\n".join([
+            "import numpy as np",
+            "from opda.nonparametric import EmpiricalDistribution",
+            f"g = np.random.default_rng({gs})",
+            f"ys = {ys_expr}",
+            f"ws = {ws_expr}",
+            "ws = None if ws is None else ws / ws.sum()",
+            f"a, b = {a_expr}, {b_expr}",
+            "d = EmpiricalDistribution(ys, ws=ws, a=a, b=b)",
+            f"at = np.sort(ys)[g.integers(0, {n}, {nl})]          # atoms",
+            "lv = d.cdf(at)                                       # cdf levels, as the instance reports them",
+            f"qs = np.concatenate([[0., 1.], lv, np.nextafter(lv, 2.), np.nextafter(lv, -1.), lv + 1e-11, lv - 1e-11, [0., 1.], "
+            f"g.random({m} - 5 * {nl} - 4)])",
+            "qs = np.clip(qs, 0., 1.)",
+            "g.shuffle(qs)",
+            f"qs = qs.reshape({shape!r})",
+            f"pts = np.concatenate([at, np.nextafter(at, np.inf), np.nextafter(at, -np.inf), [a, b, -np.inf, np.inf], "
+            f"g.uniform(ys.min() - 1., ys.max() + 1., {m} - 3 * {nl} - 4)])",
+            "g.shuffle(pts)",
+            f"pts = pts.reshape({shape!r})",
+            "quantiles, cdfs, pmfs = d.ppf(qs), d.cdf(pts), d.pmf(pts)",
+        ])
+        env = {}
+        inp = dict(recipe=recipe, sample_size=n, query_size=m, query_shape=list(shape))
+        try:
+            with warnings.catch_warnings():
+                warnings.simplefilter("ignore")
+                exec(recipe, env)
+        except Exception as e:
+            rep.violate(what="a valid large query raised", error=repr(e), input=inp, call="EmpiricalDistribution.ppf/cdf/pmf")
+            continue
+        d, qs, pts = env["d"], env["qs"], env["pts"]
+        ys = [float(v) for v in env["ys"]]
+        ws = None if env["ws"] is None else [float(v) for v in env["ws"]]
+        a, b = float(env["a"]), float(env["b"])
+        spec = StepSpec(ys, ws, a, b)
+        rep.count("large:sample=%d,query=%d" % (n, m))
+        rep.count("large:distinct_points=%d" % (100 * (len(spec.pts) // 100)))
+        rep.count("large:query_dims=%d" % len(shape))
+        rep.count("large:log2(distinct_points*query_size)=%d" % int(np.floor(np.log2(len(spec.pts) * m))))
+        rep.count("large:weights=" + ("none" if ws is None else "given"))
+        rep.count("large:a=" + ("-inf" if a == -INF else "min" if a == min(ys) else "below"))
+        out = {"ppf": env["quantiles"], "cdf": env["cdfs"], "pmf": env["pmfs"]}
+        bad_shape = [kk for kk, v in out.items() if np.shape(v) != tuple(shape)]
+        if bad_shape:
+            rep.violate(what=f"{bad_shape[0]} output shape differs from query shape", input=inp, shape=list(np.shape(out[bad_shape[0]])))
+            continue
+        qf, of = qs.ravel(), np.asarray(out["ppf"], dtype=float).ravel()
+        # clauses that hold for every entry
+        rep.case(("large-ppf0", recipe))
+        z = np.flatnonzero(qf == 0.0)
+        bad = [int(j) for j in z if of[j] != a]
+        if bad:
+            rep.violate(what="ppf(0) is not a (inside a large query)", input=dict(inp, index=bad[0], q=0.0, entries_with_level_0=len(z), wrong=len(bad)),
+                        expected=a, observed=float(of[bad[0]]), call="EmpiricalDistribution.ppf(qs)[index]")
+        rep.case(("large-ppf1", recipe))
+        full = spec.least_full_point()
+        for j in np.flatnonzero(qf == 1.0):
+            y = float(of[j])
+            if not (y == y and a <= y <= full and 1 - spec.cdf(y) <= TOL):
+                rep.violate(what="ppf(1) is not the smallest point where the cdf reaches 1 (to 1e-12) (inside a large query)",
+                            input=dict(inp, index=int(j), q=1.0), expected=full, observed=y, call="EmpiricalDistribution.ppf(qs)[index]")
+                break
+        rep.case(("large-range", recipe))
+        outside = np.flatnonzero(~((of >= a) & (of <= b)))
+        if len(outside):
+            j = int(outside[0])
+            rep.violate(what="ppf(q) lies outside [a, b] (inside a large query)", input=dict(inp, index=j, q=C.fhex(qf[j]), q_float=float(qf[j]), wrong=len(outside)),
+                        expected=f"a value in [{a}, {b}]", observed=float(of[j]), call="EmpiricalDistribution.ppf(qs)[index]")
+        # ~50 entries against the exact step distribution
+        pick = sorted({int(z[0]), int(np.flatnonzero(qf == 1.0)[0])} | {rng.randrange(m) for _ in range(48)})
+        small = len(ys) <= 200
+        lean = {}
+        if small:
+            dl = dist_line(ys, ws, a, b)
+            pj = [rng.randrange(m) for _ in range(50)]
+            r = drv.run([("emp.ppf", f"{dl} {C.flist([qf[j] for j in pick])}"), ("emp.cdf", f"{dl} {C.flist([pts.ravel()[j] for j in pj])}"),
+                         ("emp.pmf", f"{dl} {C.flist([pts.ravel()[j] for j in pj])}")])
+            if any(x is None for x in r):
+                rep.disagree(op="large", note="model rejected a valid input", input=inp)
+                small = False
+            else:
+                lean = dict(ppf=r[0], cdf=r[1], pmf=r[2])
+        else:
+            pj = [rng.randrange(m) for _ in range(50)]
+        for i, j in enumerate(pick):
+            q = float(qf[j])
+            mv, margin = spec.ppf(Fr(q))
+            if small and (C.parse_ext(lean["ppf"][2 * i]), C.parse_ext(lean["ppf"][2 * i + 1])) != (mv if abs(mv) == INF else Fr(mv), margin):
+                rep.disagree(op="ppf", note="the harness's exact step spec and the Lean model differ", input=dict(inp, q=C.fhex(q)),
+                             spec=[str(mv), str(margin)], model=lean["ppf"][2 * i:2 * i + 2])
+                continue
+            if q == 1.0:
+                continue    # judged above for every entry with level 1
+            if margin <= TOL and q != 0.0:
+                rep.skip("ppf_q_within_1e-12_of_a_level")
+                continue
+            rep.case(("large-ppf", recipe, j))
+            with warnings.catch_warnings():
+                warnings.simplefilter("ignore")
+                sc = d.ppf(q)
+            for how, iv in (("inside a large query", of[j]), ("asked as a scalar", sc)):
+                if not same_value(iv, mv if abs(mv) == INF else Fr(mv)):
+                    rep.violate(what=f"ppf(q) is not inf{{y in [a,b]: q <= cdf(y)}} ({how})", input=dict(inp, index=j, q=C.fhex(q), q_float=q),
+                                expected=mv, observed=float(iv), margin=str(margin),
+                                call="EmpiricalDistribution.ppf(qs)[index]" if how.startswith("inside") else "EmpiricalDistribution.ppf(q)")
+            if np.shape(sc) != ():
+                rep.violate(what="ppf of a scalar is not a scalar", input=dict(inp, q=C.fhex(q)))
+        pf = pts.ravel()
+        for kind in ("cdf", "pmf"):
+            vf = np.asarray(out[kind], dtype=float).ravel()
+            for i, j in enumerate(pj):
+                y = float(pf[j])
+                mv = getattr(spec, kind)(y)
+                if small and C.parse_ext(lean[kind][i]) != mv:
+                    rep.disagree(op=kind, note="the harness's exact step spec and the Lean model differ", input=dict(inp, y=C.fhex(y)),
+                                 spec=str(mv), model=lean[kind][i])
+                    continue
+                rep.case(("large-" + kind, recipe, j))
+                with warnings.catch_warnings():
+                    warnings.simplefilter("ignore")
+                    sc = getattr(d, kind)(y)
+                for how, iv in (("inside a large query", vf[j]), ("asked as a scalar", sc)):
+                    if not close(iv, mv):
+                        rep.violate(what=f"{kind}(y) differs from the exact weighted step value by more than 1e-12 ({how})",
+                                    input=dict(inp, index=j, y=C.fhex(y), y_float=y), expected=str(mv), observed=float(iv),
+                                    call=f"EmpiricalDistribution.{kind}(pts)[index]" if how.startswith("inside") else f"EmpiricalDistribution.{kind}(y)")
 
 
 def run(seed, tier, replay=None):
@@ -51,24 +257,64 @@ def run(seed, tier, replay=None):
     drv = C.Driver()
     n_dists = 300 if tier == "quick" else 5000
     cases = []
+    container = {}     # case index -> label of the container the sample is handed over in (default: list of Python floats)
+    extra = {}         # case index -> fields added to the replay input (what the stratum varied)
     if replay is not None:
         v = (replay.get("violation") or {}).get("input") or replay
         cases.append(([C.unhex(x) for x in v["ys"]], None if v.get("ws") is None else [C.unhex(x) for x in v["ws"]],
                       C.unhex(v["a"]), C.unhex(v["b"])))
+        if v.get("ys_container"):
+            container[0] = v["ys_container"]
         n_dists = 0
     for _ in range(n_dists):
         cases.append(gen_case(rng, 40))
+    # The strata below draw from generators of their own, so that the stream of the cases above does not move when one is added.
+    if replay is None:
+        # weights within 1e-15 .. 1e-4 (relative) of uniform, not uniform: cdf/pmf/ppf are about the weights that were given
+        rng_w = C.rng_for("C03/near-uniform-weights", seed)
+        for _ in range(60 if tier == "quick" else 1000):
+            n = rng_w.choice([2, 2, 3, 4, 5, 7, 10, 16, 25, 40, 64])
+            ys = G.gen_values(rng_w, n)
+            ws, delta, pattern = G.gen_weights_near_uniform(rng_w, n)
+            a, b = G.gen_bounds(rng_w, ys)
+            if ws is None:
+                rep.skip("near_uniform_weights_not_normalised_to_5e-11")
+                continue
+            extra[len(cases)] = dict(ws_relative_distance_from_uniform=delta, ws_pattern=pattern)
+            rep.count("near_uniform_ws:delta=1e%d" % int(np.floor(np.log10(delta))))
+            rep.count("near_uniform_ws:" + ("exactly_uniform_after_rounding" if len(set(ws)) == 1 else "not_uniform"))
+            cases.append((ys, ws, a, b))
+        # the sample in another container: Python ints, every integer dtype that holds the values, float32 (same numbers, same model)
+        rng_c = C.rng_for("C03/sample-containers", seed)
+        for _ in range(40 if tier == "quick" else 600):
+            n = rng_c.choice([1, 2, 3, 4, 5, 7, 10, 16, 25, 40])
+            ys, rlabel = G.gen_int_values(rng_c, n)
+            ws = G.gen_weights(rng_c, n)
+            a, b = G.gen_bounds(rng_c, ys)
+            for label, _obj in C.number_containers(ys, rng_c, k=3):
+                container[len(cases)] = label
+                rep.count("sample_container=" + label)
+                rep.count("sample_container:range=" + rlabel)
+                rep.count("sample_container:" + ("ascending" if all(x <= y for x, y in zip(ys, ys[1:])) else "unsorted"))
+                cases.append((ys, ws, a, b))
+
+    def inp_of(ci):
+        ys, ws, a, b = cases[ci]
+        inp = dict(ys=[C.fhex(v) for v in ys], ws=None if ws is None else [C.fhex(v) for v in ws], a=C.fhex(a), b=C.fhex(b))
+        if ci in container:
+            inp.update(ys_container=container[ci], ys_values=[int(v) if container[ci] != "float32" else v for v in ys])
+        inp.update(extra.get(ci, {}))
+        return inp
 
     reqs, meta = [], []
     for ci, (ys, ws, a, b) in enumerate(cases):
         with warnings.catch_warnings():
             warnings.simplefilter("ignore")
             try:
-                d = ED(ys, ws=ws, a=a, b=b)
+                d = ED(as_container(ys, container.get(ci)), ws=ws, a=a, b=b)
             except Exception as e:  # valid by construction: an exception is a defect
-                rep.violate(what="constructor raised on a valid input", error=repr(e),
-                            input=dict(ys=[C.fhex(v) for v in ys], ws=None if ws is None else [C.fhex(v) for v in ws],
-                                       a=C.fhex(a), b=C.fhex(b)))
+                rep.violate(what="constructor raised on a valid input", error=repr(e), input=inp_of(ci),
+                            call="EmpiricalDistribution(ys, ws=ws, a=a, b=b)")
                 continue
         dl = dist_line(ys, ws, a, b)
         qs_y = G.gen_queries(rng, ys, a, b)
@@ -92,8 +338,7 @@ def run(seed, tier, replay=None):
     reqs2, meta2 = [], []
     for (ci, kind, d, qs), r in zip(meta, replies):
         ys, ws, a, b = cases[ci]
-        inp = dict(ys=[C.fhex(v) for v in ys], ws=None if ws is None else [C.fhex(v) for v in ws],
-                   a=C.fhex(a), b=C.fhex(b))
+        inp = inp_of(ci)
         if r is None:
             rep.disagree(case=ci, op=kind, note="model rejected a valid input", input=inp)
             continue
@@ -118,7 +363,7 @@ def run(seed, tier, replay=None):
                 continue
             for y, iv, mv in zip(qs, impl, r):
                 mv = C.parse_ext(mv)
-                rep.case((kind, inp["ys"], inp["ws"], inp["a"], inp["b"], y),
+                rep.case((kind, inp.get("ys_container"), inp["ys"], inp["ws"], inp["a"], inp["b"], y),
                          sample=dict(op=kind, ys=ys, ws=ws, a=a, b=b, y=y, model=str(mv), impl=float(iv)))
                 if not close(iv, mv):
                     # the exact model *is* the specification (theorems C03.cdf_eq_weight_le / pmf_eq_weight_eq)
@@ -142,11 +387,17 @@ def run(seed, tier, replay=None):
             mean_m, var_m = C.parse_ext(r[0]), C.parse_ext(r[1])
             scale = max(1.0, max(abs(v) for v in ys))
             for name, iv, mv, sc in (("mean", d.mean, mean_m, scale), ("variance", d.variance, var_m, scale * scale)):
-                rep.case((name, inp["ys"], inp["ws"]), sample=None)
+                rep.case((name, inp.get("ys_container"), inp["ys"], inp["ws"]), sample=None)
                 if sc > 1e150:
                     rep.skip("moments_overflow_range")
                     continue
-                if not (float(iv) == float(iv)) or abs(Fr(float(iv)) - mv) > Fr(sc) * Fr(1, 10 ** 9):
+                rel = Fr(1, 10 ** 9)
+                if getattr(iv, "dtype", None) == np.float32:
+                    # numpy's float32-in/float32-out convention (a float32 sample, ws=None): the returned type cannot carry 1e-9
+                    # (DESIGN "where the container axis stops"); judged at float32 resolution (n roundings of 2^-24 each) instead
+                    rel = Fr(len(ys) + 4, 2 ** 23)
+                    rep.count("float32_moment_limited_by_float32_resolution")
+                if not (float(iv) == float(iv)) or abs(Fr(float(iv)) - mv) > Fr(sc) * rel:
                     rep.violate(what=f"{name} attribute differs from the weighted moment", input=inp,
                                 expected=str(mv), observed=float(iv), call=f"EmpiricalDistribution.{name}")
     replies2 = drv.run(reqs2)
@@ -168,9 +419,9 @@ def run(seed, tier, replay=None):
                 # ppf(1) is stated "to 1e-12": the float level may differ from 1 by rounding; compare via cdf
                 if not close(d.cdf(impl[i]), Fr(1)):
                     rep.violate(what="cdf(ppf(1)) is not 1 to 1e-12", input=dict(inp, q=C.fhex(q)), observed=float(impl[i]))
-                rep.case(("ppf1", inp["ys"], inp["ws"], inp["a"], inp["b"]))
+                rep.case(("ppf1", inp.get("ys_container"), inp["ys"], inp["ws"], inp["a"], inp["b"]))
                 continue
-            rep.case(("ppf", inp["ys"], inp["ws"], inp["a"], inp["b"], q),
+            rep.case(("ppf", inp.get("ys_container"), inp["ys"], inp["ws"], inp["a"], inp["b"], q),
                      sample=dict(op="ppf", ys=ys, ws=ws, a=a, b=b, q=q, model=str(mv), impl=float(impl[i])))
             if not same_value(impl[i], mv):
                 rep.violate(what="ppf(q) is not inf{y in [a,b]: q <= cdf(y)}", input=dict(inp, q=C.fhex(q)),
@@ -185,11 +436,18 @@ def run(seed, tier, replay=None):
         for sh, msg in C.shape_probe(d.ppf, qs)[:1]:
             rep.violate(what=f"ppf: {msg} (every output has the shape of the query)", input=dict(inp, qs=[C.fhex(q) for q in qs[:6]]),
                         shape=list(sh), call="EmpiricalDistribution.ppf")
+    if replay is None:
+        large_workload(ED, rep, drv, seed, tier)
     return rep.result(
         rule="structured samples (sizes 1-40; grid/tied/rounded/constant/huge/±inf values; None, integer-ratio, "
              "zero-containing, near-uniform weights; bounds at min/max/beyond/infinite); queries: every atom, both "
              "float neighbours, midpoints, ±inf (cdf/pmf) and every cumulative level ±{0,1ulp,1e-11,1e-3},0,1 (ppf). "
-             "A case is (function, distribution, query); all are non-trivial; distinct = distinct by hash of that triple.",
+             "A case is (function, distribution, query); all are non-trivial; distinct = distinct by hash of that triple. "
+             "Further strata (own generators): weights 1/n*(1 +- delta), delta log-uniform in 1e-15..1e-4, renormalised; integer-valued "
+             "unsorted samples handed over as Python ints / every integer dtype that holds them / float32 (same exact model; float32-out "
+             "moments judged at float32 resolution); large workloads (20-3000 points x 300-100000 queries, 1-D to 3-D, lower bound "
+             "stratified): ppf(0)=a, ppf(1)=least full point, range [a,b] for every entry, ~50 entries per query and their scalar "
+             "re-evaluation against the exact step distribution (exact rationals; cross-checked with the Lean model for samples <= 200).",
         extra=dict(driver_lines=drv.lines))
 
 
